@@ -290,6 +290,14 @@ func rulesC18(w *World, r *Report) {
 			}
 		}
 		r.Check(n == 1 && bad == 0, "C18.R4", "sortPointsListByTime", w.pos(sp.Pos()), "stable sort by time", "sorting by time is not stable: slots with equal times may swap")
+		// every list is sorted, whatever it holds: no way round the sort inside the loop
+		var sortCall ssa.Instruction
+		for _, c := range callsIn(sp) {
+			if isCallToPkgFunc(c, "sort", "Stable") {
+				sortCall = c.(ssa.Instruction)
+			}
+		}
+		ruleLoopBodyAlwaysCalls(w, r, "C18.R4", "sortPointsListByTime:every-list", sortCall, "a list whose first slot is not newer than its last can still be out of order inside (holes, stale laps): with -sort the output must be in time order")
 	}
 }
 
@@ -986,6 +994,7 @@ func rulesC20(w *World, r *Report) {
 	ruleProductWidth(w, r, "C20.R5")
 	r.Rule("C20.R6", "the requested layout reaches the command: each flag.Value (aggregation method, xFilesFactor, retention list, file mode, timestamps) stores what it parsed into the option it was registered for before reporting success", 5)
 	ruleFlagSetStores(w, r, "C20.R6")
+	ruleParseFloatWidth(w, r, "C20.R6")
 	ruleC05R7(w, r, "C05.R7", 2, cmdReachableFrom(w, "GenerateCommand"))
 }
 
